@@ -200,6 +200,8 @@ def merge(agg, st):
     agg["events"] += st.get("events", 0)
     if st.get("invalid"):
         agg["invalid"] += 1
+    if st.get("sched_keys"):
+        agg.setdefault("sched", set()).update(st["sched_keys"])
     for k, v in st.get("stats", {}).items():
         agg["stats"][k] = agg["stats"].get(k, 0) + v
     for s in st.get("samples", []):
@@ -242,4 +244,7 @@ def build_coverage(mod, agg, tier, wall_s, truncated, workers, known_hit):
         "components": getattr(mod, "COMPONENTS", {}),
     }
     cov.update(agg.get("extra", {}))
+    if "sched" in agg:
+        cov["distinct_interleavings"] = len(agg["sched"])
+        cov["distinct_interleavings_measure"] = "distinct digests of the recorded scheduler decision sequence among non-trivial runs"
     return cov
